@@ -333,3 +333,10 @@ Fixpoint run_from (fx : bool) (m : mock) (i : N) (ops : list op) (rets : list (o
 Definition run_gen (fx : bool) (ops : list op) : obs := run_from fx mock0 0%N ops [].
 Definition run : list op -> obs := run_gen true.        (* the code as it is now *)
 Definition run_old : list op -> obs := run_gen false.   (* before the repair *)
+
+(* ---------------------------------------------------------------- step-1 sanity oracle (replaced by the real spec in C08_Spec) *)
+Definition want_count (ops : list op) : nat :=
+  length (filter (fun o => match o with OCall _ _ true => true | _ => false end) ops).
+Definition spec0 (ops : list op) (o : obs) : bool :=
+  Nat.leb (length (o_rets o)) (want_count ops) &&
+  match o_fail o with Some (i, _) => (i <? N.of_nat (length ops))%N | None => true end.
